@@ -223,6 +223,8 @@ def run(S):
     rule_tok(S)
     rule_pub(S)
     rule_lve(S)
+    from checks import C07
+    C07.rule_walk(S)   # a session is counted by the reclamation protocol from the moment enter returns
     rule_cap(S)
 
 
